@@ -5,7 +5,16 @@ names bound to plain values / callables with a logged side effect / nothing (und
 bare name); names may repeat inside a chain; bodies carry a marker and re-reference condition names at nesting depth 0..3
 (inside dtml-if, dtml-let, dtml-in wrappers that do not rebind the name).  Small chains are enumerated exhaustively over the
 condition kinds (= every truth assignment), larger ones are random.
-Oracle (independent of the model): output and ordered call log predicted from the chain by the documented rule.
+Histories (one rendering in which a conditional is LEFT BY AN EXCEPTION and rendering goes on over the same namespace):
+the escaping conditional (if chain / unless / call, also nested in if / let / in wrappers and inside an enclosing conditional on
+a pool name) is left by dtml-raise, by an undefined dtml-var, by dtml-return or by an injected fault in a condition / body
+callable; rendering continues through dtml-try/except (matching, non-matching, default, base-class handlers, else),
+dtml-try/finally (the finally body runs while the exception is in flight), or the boundary of a sub-template rendered on the
+caller's namespace (dtml-var sub / dtml-if sub / dtml-unless sub / dtml-call sub, with or without own defaults); the handler /
+finally / else bodies and the rest of the template hold further conditionals and references on the SAME names, which have to
+evaluate them afresh.  A second family uses callables whose result CHANGES from one evaluation to the next (real code only).
+Oracle (independent of the model): output and ordered call log predicted from the chain by the documented rule, Python's
+try semantics for the recovery constructs.
 Correspondence: the same programs on the Lean interpreter model (results + call traces).
 """
 import itertools
@@ -25,7 +34,10 @@ class Builder:
     def __init__(self):
         self.ns = {}          # name -> JSON value
         self.fn = 0
-        self.binding = {'one': ('val', 1), 'single': ('val', 'SEQ')}   # name -> ('val', v) | ('fn', id, result) | ('undef',)
+        # name -> ('val', v) | ('fn', id, result) | ('fnseq', id, [results]) | ('tmpl', index) | ('undef',)
+        self.binding = {'one': ('val', 1), 'single': ('val', 'SEQ')}
+        self.subs = []        # sub-templates rendered on the caller's namespace: (blocks, globals [[name, JSON value]])
+        self.seqs = {}        # function id -> successive results (callables whose value changes; not in the model)
 
     def new_fn(self, result_json, result_py):
         self.fn += 1
@@ -51,6 +63,25 @@ class Builder:
             self.binding[name] = b
 
 
+    def bind_seq(self, name, results):
+        """a callable whose i-th invocation returns results[i] (the last one from then on)"""
+        self.fn += 1
+        self.ns[name] = {'f': self.fn, 'r': results[0]}
+        self.binding[name] = ('fnseq', self.fn, [jpy(x) for x in results])
+        self.seqs[self.fn] = [jpy(x) for x in results]
+
+    def new_sub(self, blocks, globals_):
+        self.subs.append((blocks, globals_))
+        name = 'sub%d' % len(self.subs)
+        self.ns[name] = {'T': len(self.subs)}
+        self.binding[name] = ('tmpl', len(self.subs) - 1)
+        return name
+
+
+def jpy(v):
+    return v['s'] if isinstance(v, dict) else v
+
+
 def truthy(v):
     return bool(v)
 
@@ -60,25 +91,47 @@ def pystr(v):
 
 
 class Fault(Exception):
-    """an exception raised by a callable of the namespace: it must propagate unchanged, whatever its class"""
+    """an exception raised while rendering (by a callable of the namespace, dtml-raise, an undefined dtml-var): it must
+    propagate unchanged, whatever its class, up to the first dtml-try handler that names the class or one of its bases"""
 
-    def __init__(self, cls):
+    def __init__(self, cls, msg='fault'):
         self.cls = cls
+        self.msg = msg
+
+
+class Ret(Exception):
+    """dtml-return: leaves the template being rendered (not caught by dtml-except, seen by dtml-finally)"""
+
+    def __init__(self, v):
+        self.v = v
+
+
+def handles(handler, cls):
+    """Python's rule for `except <handler>`; '' is the bare handler"""
+    return handler == '' or issubclass(proggen.CLASSES[cls][0], proggen.CLASSES[handler][0])
 
 
 class Oracle:
-    """the documented rule, evaluated over the abstract program"""
+    """the documented rule, evaluated over the abstract program.  `caches` is the stack of what is layered over the
+    caller's data: one dictionary per conditional being rendered (it lives exactly as long as that conditional, however the
+    conditional is left), plus the bindings of the let / in wrappers and the defaults of a sub-template being rendered"""
 
-    def __init__(self, b, faults=(), fault_cls=ValueError):
+    def __init__(self, b, faults=(), fault_cls='ValueError'):
         self.b = b
         self.calls = []
         self.out = []
         self.faults = set(faults)
         self.fault_cls = fault_cls
+        self.seq_i = {}
 
-    def invoke(self, fid, result):
+    def invoke(self, bd):
         n = len(self.calls)
-        self.calls.append(fid)
+        self.calls.append(bd[1])
+        result = bd[2]
+        if bd[0] == 'fnseq':
+            i = self.seq_i.get(bd[1], 0)
+            self.seq_i[bd[1]] = i + 1
+            result = bd[2][min(i, len(bd[2]) - 1)]
         if n in self.faults:
             raise Fault(self.fault_cls)
         return result
@@ -92,9 +145,26 @@ class Oracle:
             raise KeyError(n)
         if bd[0] == 'val':
             return bd[1]
-        if call:
-            return self.invoke(bd[1], bd[2])
-        return bd      # the callable itself (truthy)
+        if not call:
+            return bd      # the callable itself (truthy)
+        if bd[0] == 'tmpl':
+            return self.sub(bd[1], caches)
+        return self.invoke(bd)
+
+    def sub(self, i, caches):
+        """a sub-template found by name is rendered on the caller's namespace (its own defaults on top for the duration);
+        its value is its text, or what dtml-return gave"""
+        blocks, globals_ = self.b.subs[i]
+        mark = len(self.out)
+        caches.append({k: jpy(v) for k, v in globals_})
+        try:
+            self.render(blocks, caches)
+            return ''.join(self.out[mark:])
+        except Ret as e:
+            return e.v
+        finally:
+            caches.pop()
+            del self.out[mark:]
 
     def cond_value(self, src, caches):
         if src[0] == 'n':
@@ -105,16 +175,19 @@ class Oracle:
                 return None
             caches[-1][n] = v
             return v
-        e = src[1]
+        return self.expr(src[1], caches)
+
+    def expr(self, e, caches):
         if e[0] == 'call':
-            bd = self.lookup(e[1][1], caches, False)
-            return self.invoke(bd[1], bd[2])
+            return self.invoke(self.lookup(e[1][1], caches, False))
         if e[0] == 'not':
             return not truthy(self.lookup(e[1][1], caches, False))
         if e[0] == 'eq':
-            return self.lookup(e[1][1], caches, False) == (e[2][1]['s'] if isinstance(e[2][1], dict) else e[2][1])
+            return self.lookup(e[1][1], caches, False) == jpy(e[2][1])
         if e[0] == 'name':
             return self.lookup(e[1], caches, False)
+        if e[0] == 'lit':
+            return jpy(e[1])
         raise ValueError(e)
 
     def render(self, blocks, caches):
@@ -127,6 +200,8 @@ class Oracle:
                 try:
                     v = self.lookup(n, caches, True)
                 except KeyError:
+                    if b[3] is None:
+                        raise Fault('KeyError', n)
                     v = b[3]
                 self.out.append(pystr(v))
             elif k == 'cond':
@@ -167,6 +242,51 @@ class Oracle:
                     self.render(b[3], caches)
                 finally:
                     caches.pop()
+            elif k == 'try':
+                # Python's try / except / else; what the body had produced before it failed is dropped
+                _, body, handlers, els = b
+                mark = len(self.out)
+                try:
+                    self.render(body, caches)
+                except Fault as f:
+                    hb = [h for nm, h in handlers if handles(nm, f.cls)]
+                    if not hb:
+                        raise
+                    del self.out[mark:]
+                    self.render(hb[0], caches)
+                else:
+                    if els is not None:
+                        self.render(els, caches)
+            elif k == 'tryfin':
+                mark = len(self.out)
+                try:
+                    self.render(b[1], caches)
+                except (Fault, Ret):
+                    del self.out[mark:]
+                    self.render(b[2], caches)
+                    raise
+                else:
+                    self.render(b[2], caches)
+            elif k == 'raise':
+                # the body is the message; a failure inside it is replaced by a fixed text
+                mark = len(self.out)
+                try:
+                    self.render(b[3], caches)
+                    msg = ''.join(self.out[mark:])
+                except Fault:
+                    msg = 'Invalid Error Value'
+                finally:
+                    del self.out[mark:]
+                raise Fault(b[1], msg)
+            elif k == 'ret':
+                if b[1][0] == 'n':
+                    try:
+                        v = self.lookup(b[1][1], caches, True)
+                    except KeyError:
+                        raise Fault('KeyError', b[1][1])
+                else:
+                    v = self.expr(b[1][1], caches)
+                raise Ret(v)
             else:
                 raise ValueError(k)
 
@@ -228,8 +348,9 @@ def build_case(b, main_blocks):
     ns = dict(b.ns)
     ns['one'] = 1
     ns['single'] = {'l': [{'o': 1, 'a': [['w', 1]]}]}
+    subs = [{'blocks': sb, 'globals': sg, 'vars': [], 'source': proggen.print_blocks(sb)} for sb, sg in b.subs]
     return {
-        'templates': [{'blocks': main_blocks, 'globals': [], 'vars': [], 'source': proggen.print_blocks(main_blocks)}],
+        'templates': [{'blocks': main_blocks, 'globals': [], 'vars': [], 'source': proggen.print_blocks(main_blocks)}] + subs,
         'main': 0, 'clients': [], 'mapping': [], 'kw': [[k, v] for k, v in ns.items()],
         'classes': proggen.class_table(), 'denied': [], 'guard': False, 'utf8': True,
     }
@@ -293,44 +414,307 @@ def gen_random(r):
     return b, blocks, tuple(key)
 
 
+HIST_KINDS = ['fn_t', 'fn_t', 'fn_f', 'fn_none', 'fn_str', 'fn_empty', 'val_t', 'val_f', 'str_t', 'none', 'undef']
+SEQ_KINDS = {'tf': [1, 0], 'ft': [0, 1], 'alt': [1, 0, 1, 0, 1, 0, 1, 0], 'str': [{'s': 'a'}, {'s': ''}, {'s': 'b'}],
+             'none': [None, 2, None, 3], 'up': [0, 0, 5]}
+RAISE_NAMES = ['ValueError', 'KeyError', 'ZeroDivisionError', 'LookupError']
+HANDLER_NAMES = ['', '', '', 'Exception', 'Exception', 'Exception', 'ValueError', 'KeyError', 'LookupError', 'LookupError',
+                 'E1', 'NameError', 'ZeroDivisionError', 'ArithmeticError']
+FAULT_CLASSES = ['KeyError', 'NameError', 'ValueError', 'E2']
+
+
+class History:
+    """one template in which a conditional is left by an exception and rendering goes on over the same namespace, with
+    more conditionals / references on the same few names (`pool`) afterwards.  `enc` = the names an enclosing conditional
+    has already evaluated (there the name stands for its value, so `name()` expressions are not generated for it)."""
+
+    def __init__(self, r, stateful=False):
+        self.r = r
+        self.b = Builder()
+        self.k = 0
+        self.shape = []
+        self.pool = ['h%d' % i for i in range(r.randint(1, 3))]
+        for i, nm in enumerate(self.pool):
+            if stateful and (i == 0 or r.random() < 0.5):
+                kd = r.choice(sorted(SEQ_KINDS))
+                self.b.bind_seq(nm, SEQ_KINDS[kd])
+            else:
+                self.b.bind(nm, r.choice(['fn_t', 'fn_t', 'fn_f', 'fn_none', 'fn_str'] if i == 0 else HIST_KINDS))
+
+    def tag(self, p):
+        self.k += 1
+        return '%s%d' % (p, self.k)
+
+    def src(self, enc):
+        r = self.r
+        c = r.random()
+        if c < 0.7:
+            return ['n', r.choice(self.pool)]
+        if c < 0.8:
+            fns = [n for n in self.pool if self.b.binding[n][0] in ('fn', 'fnseq') and n not in enc]
+            if fns:
+                return ['e', ['call', ['name', r.choice(fns)]]]
+        if c < 0.87:
+            df = [n for n in self.pool if self.b.binding[n][0] != 'undef']
+            if df:
+                n = r.choice(df)
+                return ['e', r.choice([['not', ['name', n]], ['name', n]])]
+        self.k += 1
+        return make_src(self.b, 100 + self.k, r.choice(EXPR_KINDS))
+
+    def refs(self):
+        r = self.r
+        out = []
+        for _ in range(r.choice([0, 1, 1, 1, 2])):
+            ref = [['lit', '('], ['var', ['n', r.choice(self.pool)], False, 'U', None], ['lit', ')']]
+            out += wrap(r, ref, r.choice([0, 0, 0, 1, 2]))
+        return out
+
+    def raiser(self, prefer_ret):
+        r = self.r
+        c = r.random()
+        if c < (0.6 if prefer_ret else 0.2):
+            if r.random() < 0.5:
+                self.shape.append('ret-lit')
+                return ['ret', ['e', ['lit', {'s': self.tag('R')}]]]
+            self.shape.append('ret-name')
+            return ['ret', ['n', r.choice(self.pool)]]
+        if c < 0.75:
+            cls = r.choice(RAISE_NAMES)
+            self.shape.append('raise-' + cls)
+            return ['raise', cls, None, [['lit', self.tag('M')]] + (self.refs() if r.random() < 0.3 else [])]
+        self.shape.append('undefined-var')
+        return ['var', ['n', 'nowhere'], False, None, None]
+
+    def body(self, p, enc, depth, esc=False, prefer_ret=False):
+        r = self.r
+        blocks = [['lit', self.tag(p)]] + self.refs()
+        if depth > 0 and r.random() < 0.2:
+            blocks.append(self.cond(enc, depth - 1))
+        if esc and r.random() < 0.75:
+            rz = wrap(r, [self.raiser(prefer_ret)], r.choice([0, 0, 1, 2]))
+            blocks = rz + blocks if r.random() < 0.3 else blocks + rz
+        return blocks
+
+    def cond(self, enc, depth, esc=False, prefer_ret=False):
+        """a conditional over the pool; esc: its bodies (may) end in something that raises"""
+        r = self.r
+        form = r.choice(['if', 'if', 'if', 'unless', 'call'] if not esc else ['if', 'if', 'if', 'unless'])
+        if form == 'call':
+            return ['call', self.src(enc)]
+        if form == 'unless':
+            s = self.src(enc)
+            return ['unless', s, self.body('U', enc | ({s[1]} if s[0] == 'n' else set()), depth, esc, prefer_ret)]
+        srcs = []
+        enc2 = set(enc)
+        for _ in range(r.choice([1, 1, 2, 3])):
+            s = self.src(enc2)
+            if s[0] == 'n':
+                enc2.add(s[1])
+            srcs.append(s)
+        conds = [[s, self.body('B', enc2, depth, esc, prefer_ret)] for s in srcs]
+        els = self.body('L', enc2, depth, esc, prefer_ret) if r.random() < 0.6 else None
+        return ['cond', conds, els]
+
+    def handlers(self, enc):
+        r = self.r
+        names = []
+        for _ in range(r.choice([1, 1, 2])):
+            nm = r.choice(HANDLER_NAMES)
+            if nm not in names:
+                names.append(nm)
+        self.shape.append('except:' + ','.join(names))
+        return [[nm, self.body('H', enc, 1)] for nm in names]
+
+    def segment(self, kind, enc):
+        r = self.r
+        self.shape.append(kind)
+        if kind == 'plain':
+            return [self.cond(enc, 1)]
+        if kind == 'try':
+            body = [['lit', self.tag('T')], self.cond(enc, 1, True), ['lit', 'a']]
+            els = self.body('E', enc, 1) if r.random() < 0.3 else None
+            return [['try', body, self.handlers(enc), els]]
+        if kind == 'tryfin':
+            inner = ['tryfin', [['lit', self.tag('T')], self.cond(enc, 1, True)], self.body('F', enc, 1)]
+            if r.random() < 0.8:
+                return [['try', [inner], self.handlers(enc), None]]
+            return [inner]
+        if kind == 'sub':
+            every = frozenset(self.pool)
+            sb = [['lit', self.tag('S')], self.cond(every, 1, True, True), ['lit', 'late']]
+            if r.random() < 0.3:
+                sb.append(self.cond(every, 0))
+            sg = []
+            if r.random() < 0.4:
+                sg = [['subdef', {'s': 'SD'}]]
+                sb.insert(1, ['var', ['n', 'subdef'], False, 'U', None])
+            name = self.b.new_sub(sb, sg)
+            how = r.choice(['var', 'var', 'if', 'unless', 'call'])
+            self.shape.append('sub-by-' + how + ('+defaults' if sg else ''))
+            if how == 'var':
+                out = [['var', ['n', name], False, None, None]]
+            elif how == 'if':
+                out = [['cond', [[['n', name], self.body('B', enc, 0) + [['var', ['n', name], False, 'U', None]]]],
+                        self.body('L', enc, 0)]]
+            elif how == 'unless':
+                out = [['unless', ['n', name], self.body('U', enc, 0)]]
+            else:
+                out = [['call', ['n', name]]]
+            if r.random() < 0.6:
+                out = [['try', out, self.handlers(enc), None]]
+            # the sub-template's defaults are gone once it has returned
+            return out + [['var', ['n', 'subdef'], False, 'U', None]]
+        raise ValueError(kind)
+
+    def build(self):
+        r = self.r
+        enc = frozenset()
+        outer = None
+        if r.random() < 0.3:
+            outer = r.choice(self.pool)
+            enc = frozenset([outer])
+            self.shape.append('inside-conditional')
+        kinds = [r.choice(['try', 'try', 'tryfin', 'sub'])]
+        kinds += [r.choice(['plain', 'plain', 'plain', 'try', 'tryfin', 'sub']) for _ in range(r.choice([1, 1, 2]))]
+        if r.random() < 0.2:
+            kinds.insert(0, 'plain')
+        segs = []
+        for kd in kinds:
+            segs += self.segment(kd, enc) + [['lit', '|']]
+        if outer is not None:
+            # the same history in both branches: it runs under the enclosing conditional's cache whatever the value is
+            segs = [['cond', [[['n', outer], segs]], segs]]
+        return self.b, [['lit', '[']] + segs + [['lit', ']']], ('history',) + tuple(self.shape)
+
+
+def gen_history(r, stateful=False):
+    return History(r, stateful).build()
+
+
+class SeqFn(proggen.Fn):
+    """namespace callable whose result changes from one invocation to the next"""
+
+    def __init__(self, world, fid, results):
+        proggen.Fn.__init__(self, world, fid, None)
+        self.results = results
+        self.i = 0
+
+    def __call__(self):
+        self.result = self.results[min(self.i, len(self.results) - 1)]
+        self.i += 1
+        return proggen.Fn.__call__(self)
+
+
+def run_real(case, plan, b):
+    """the case on the real classes only, with the changing callables of `b` (the model's callables are constant)"""
+    from DocumentTemplate import HTML
+    world = proggen.World(plan[0], proggen.CLASSES[plan[1]][0])
+    templates = [HTML(t['source']) for t in case['templates']]
+    for t, tj in zip(templates, case['templates']):
+        t.globals = {k: proggen.to_py(world, v, templates) for k, v in tj['globals']}
+    kw = {}
+    for k, v in case['kw']:
+        if isinstance(v, dict) and v.get('f') in b.seqs:
+            kw[k] = SeqFn(world, v['f'], b.seqs[v['f']])
+        else:
+            kw[k] = proggen.to_py(world, v, templates)
+    try:
+        res = {'ok': proggen.from_py(templates[0](None, {}, **kw))}
+    except Exception as e:  # noqa
+        res = {'raise': type(e).__name__, 'msg': proggen.exc_msg(e)}
+    return {'result': res, 'events': world.events, 'calls': world.calls, 'snap_ids': [], 'max_level': 0}
+
+
 def predict(b, blocks, faults=(), fault_cls='ValueError'):
     o = Oracle(b, faults, fault_cls)
     try:
         o.render(blocks, [])
     except Fault as f:
-        return {'raise': f.cls, 'msg': 'fault'}, o.calls
+        return {'raise': f.cls, 'msg': f.msg}, o.calls
+    except Ret as e:
+        return {'ok': proggen.from_py(e.v)}, o.calls       # dtml-return in the main template: its value is the result
     return {'ok': {'s': ''.join(o.out)}}, o.calls
 
 
-def check(res, items, have_driver, r=None):
-    cases = [build_case(b, blocks) for b, blocks, _ in items]
-    plans = [((), 'ValueError')] * len(items)
+def fault_plans(r, it, dense):
+    """the k-th callable invocation raising, for the invocation points of the fault-free run (all of them when `dense`);
+    sometimes two faults in one rendering (the second one after the first was handled)"""
+    _, calls0 = predict(it[0], it[1])
+    n = len(calls0)
+    ks = list(range(n))
+    if not dense and n > 6:
+        ks = sorted(r.sample(ks, 6))
+    plans = [((k,), r.choice(FAULT_CLASSES)) for k in ks]
+    if n >= 2 and r.random() < 0.5:
+        k1 = r.randrange(n - 1)
+        plans.append(((k1, r.randrange(k1 + 1, n)), r.choice(FAULT_CLASSES)))
+    return plans
+
+
+def check(res, items, have_driver, r=None, histories=()):
     all_items = list(items)
+    plans = [((), 'ValueError')] * len(items)
     if r is not None:
         # the same programs with the k-th callable invocation raising — also KeyError / NameError, which the namespace
         # lookup must not mistake for "name not defined"
-        for it, c in zip(items, cases):
+        for it in items:
             if r.random() < 0.5:
-                _, calls0 = predict(it[0], it[1])
-                for k in range(len(calls0)):
-                    all_items.append(it)
-                    cases.append(c)
-                    plans.append(((k,), r.choice(['KeyError', 'NameError', 'ValueError', 'E2'])))
+                for pl in fault_plans(r, it, True):
+                    if len(pl[0]) == 1:
+                        all_items.append(it)
+                        plans.append(pl)
+    for it in histories:
+        all_items.append(it)
+        plans.append(((), 'ValueError'))
+        if r is not None:
+            for pl in fault_plans(r, it, False):
+                all_items.append(it)
+                plans.append(pl)
+    built = {}
+    cases = []
+    for it in all_items:
+        if id(it) not in built:
+            built[id(it)] = build_case(it[0], it[1])
+        cases.append(built[id(it)])
     res.have_driver = have_driver
-    runs = interp.run_cases(res, cases, plans)
+    # callables whose value changes are not part of the model: those programs run on the real classes only
+    in_model = [i for i, it in enumerate(all_items) if not it[0].seqs]
+    runs = [None] * len(all_items)
+    for i, x in zip(in_model, interp.run_cases(res, [cases[i] for i in in_model], [plans[i] for i in in_model])):
+        runs[i] = x
+    for i, it in enumerate(all_items):
+        if runs[i] is None:
+            runs[i] = (cases[i], plans[i], run_real(cases[i], plans[i], it[0]), None)
     for (b, blocks, key), (c, plan, impl, m) in zip(all_items, runs):
         res.evaluations += 1
         exp, exp_calls = predict(b, blocks, plan[0], plan[1])
         got = impl['result']
         got_calls = [e[1] for e in impl['events'] if e[0] == 'call']
         ok = got == exp and got_calls == exp_calls
-        res.nt((key, plan[0] != (), plan[1] if plan[0] else ''))
-        res.count('form=' + '+'.join(k[0] for k in ([key] if isinstance(key[0], str) else key)))
+        hist = key[0] == 'history'
+        res.nt((key, len(plan[0]), plan[1] if plan[0] else ''))
+        if hist:
+            res.count('form=history' + ('(changing values)' if b.seqs else ''))
+            for w in set(key[1:]):
+                if w.startswith(('ret-', 'raise-', 'undefined-var', 'sub-by-', 'inside-')) or w in ('try', 'tryfin'):
+                    res.count('history:' + w)
+            for cls in (exp.get('raise'),):
+                if cls:
+                    res.count('history:result=raise')
+        else:
+            res.count('form=' + '+'.join(k[0] for k in ([key] if isinstance(key[0], str) else key)))
         if plan[0]:
             res.count('fault=' + plan[1])
+            if len(plan[0]) > 1:
+                res.count('fault=two-in-one-rendering')
         if not ok:
-            res.oracle_fail.append({'case': {'source': c['templates'][0]['source'], 'namespace': c['kw'], 'faults': list(plan[0]),
-                                             'fault_cls': plan[1]},
+            res.oracle_fail.append({'case': {'source': c['templates'][0]['source'],
+                                             'sub_templates': {'sub%d' % i: t['source'] for i, t in
+                                                               enumerate(c['templates']) if i},
+                                             'namespace': c['kw'],
+                                             'changing_results': {str(k): v for k, v in b.seqs.items()},
+                                             'faults': list(plan[0]), 'fault_cls': plan[1]},
                                     'what': 'expected %r with calls %r; got %r with calls %r' % (exp, exp_calls, got, got_calls)})
         if m is not None:
             d = interp.compare(impl, m)
@@ -350,21 +734,41 @@ def run(res, tier, have_driver):
                 '(f(), not n, n == lit, bare name); repeated names inside a chain; bodies re-reference condition names at nesting '
                 'depth 0..3; repeated expression texts in one chain; each program also with the k-th callable invocation raising '
                 'KeyError / NameError / ValueError / E2; exhaustive over 7 core condition kinds for chains of length <= 3 (quick) / 4 (thorough) = every truth '
-                'assignment, random beyond; non-trivial = distinct (form, condition kinds, else?) tuples')
+                'assignment, random beyond; non-trivial = distinct (form, condition kinds, else?) tuples.  HISTORIES (one '
+                'rendering in which a conditional is left by an exception and rendering continues over the same namespace): an '
+                'if chain / unless over a pool of 1..3 names (callables with a logged side effect, plain values, None, undefined) '
+                'and expressions on them (h(), not h, h) whose bodies end, at wrapper depth 0..2, in dtml-raise (4 classes, '
+                'message body with references), an undefined dtml-var, or dtml-return (literal / name); recovered by dtml-try '
+                'with 1..2 handlers (bare, exact class, base class, non-matching; optional else), by dtml-try/finally (alone or '
+                'inside a dtml-try), or at the boundary of a sub-template rendered on the caller\'s namespace (dtml-var / dtml-if / '
+                'dtml-unless / dtml-call sub, with and without own defaults, inside or outside a dtml-try); followed by 1..2 '
+                'further conditionals / try / sub segments on the same names, the handler / finally / else bodies re-testing '
+                'and re-referencing them too; about 30 % of the histories run inside an enclosing conditional on a pool name (whose '
+                'cache must keep serving); every history also with the k-th callable invocation raising (up to 6 points, '
+                'KeyError / NameError / ValueError / E2) and with two faults in one rendering; a third of the histories use '
+                'callables whose result changes from one evaluation to the next (real code only, no model run); expected output '
+                '+ ordered call log from the documented rule with Python try semantics')
     items = []
     kmax = 3 if tier == 'quick' else 4
     for k in range(1, kmax + 1):
         items += list(gen_exhaustive(r, k, CORE_KINDS))
     for _ in range(1500 if tier == 'quick' else 20000):
         items.append(gen_random(r))
-    runs = check(res, items, have_driver, r)
+    rh = common.rng('C09-history')
+    nh = 500 if tier == 'quick' else 8000
+    histories = [gen_history(rh) for _ in range(nh)] + [gen_history(rh, True) for _ in range(nh // 2)]
+    runs = check(res, items, have_driver, r, histories)
+    res.oracle_fail.sort(key=lambda f: len(f['case']['source']))      # the replay shows the shortest failing input
     res.exhaustive = False
     for i in (0, len(runs) // 2, len(runs) - 1):
         c, plan, impl, m = runs[i]
         res.sample({'source': c['templates'][0]['source'][:300], 'result': impl['result'],
                     'calls': [e[1] for e in impl['events'] if e[0] == 'call']})
     res.assumptions += ['interpreter model validated (not verified) against the real classes: results and call traces compared',
-                        'truth of a value = Python bool(); values are ints, strings, None, callables']
+                        'truth of a value = Python bool(); values are ints, strings, None, callables',
+                        'histories: exceptions are ValueError / KeyError / NameError / LookupError / ZeroDivisionError / a user '
+                        'class; handler bodies do not use error_type / error_value; callables with changing results are compared '
+                        'with the oracle only (the model\'s callables are constant)']
 
 
 def search_more(res, tier):
@@ -373,7 +777,7 @@ def search_more(res, tier):
     items = [gen_random(r) for _ in range(6000)]
     for k in (4,):
         items += list(gen_exhaustive(r, k, CORE_KINDS))
-    check(res2, items, False, r)
+    check(res2, items, False, r, [gen_history(r, i % 3 == 2) for i in range(3000)])
     return res2.oracle_fail
 
 
